@@ -231,9 +231,10 @@ static void run_case(Rng& r, Ctx& c)
 
     std::string kind = rq.sym ? "sym" : "rect";
     std::string hist = !anyOptim ? "first" : (prevEmpty ? "after-empty" : "after-ok");
-    // one key per suspected cause: (a) stale state after an empty request, (b) active-structure list, else (kind, mode, history)
+    // one key per root cause: (a) stale state after an empty request (fixed in /repo 03007d492; the class keeps its key),
+    // (b) CovCalcMode active-structure list ignored by both optimised builders (open), else (kind, mode, history)
     std::string key  = prevEmpty ? std::string("C04:covopt:stale-after-empty-request")
-                                 : (rq.modeKind == 5 ? "C04:covopt:" + kind + ":mode=active"
+                                 : (rq.modeKind == 5 ? std::string("C04:covopt:active-cov-list-ignored")
                                                      : "C04:covopt:" + kind + ":mode=" + MODEN[rq.modeKind] + ":hist=" + hist);
     std::string what = fmt("req#%d %s db1=%d(n=%d) db2=%d ivar0=%d jvar0=%d nb1=%s nb2=%s mode=%s hist=%s staleAfter=%d", q,
                            kind.c_str(), rq.d1, n1, rq.d2, rq.ivar0, rq.jvar0, vi(rq.nb1).c_str(), vi(rq.nb2).c_str(),
